@@ -206,6 +206,7 @@ YOUTUBE_CHANNEL_NAME_BLACKLIST = {
     "reporthistory",
     "results",
     "t",
+    "watch",
 }
 
 YoutubeVideo = namedtuple("YoutubeVideo", ["id", "playlist"])
@@ -381,7 +382,7 @@ def parse_youtube_url(url, fix_common_mistakes=True):
 
         name = splitted_path[1].lstrip("@")
 
-        if not name:
+        if not name or name in YOUTUBE_CHANNEL_NAME_BLACKLIST:
             return None
 
         return YoutubeChannel(id=None, name=name)
